@@ -13,6 +13,8 @@ pub struct SnapState {
     pub side: Option<Side>,
     pub last: Option<Snapshot>,
     pub count: u64,
+    pub asked: u64,
+    pub force: u32,
     pub target_conn_window: i64,
     pub max_target_conn_window: i64,
     pub violations: Vec<Violation>,
@@ -58,6 +60,23 @@ impl SnapHook {
 
     pub fn before(&self, s: &Snapshot) {
         self.check(s, "before-poll");
+    }
+
+    /// Every snapshot for the first 3000 connection polls of an execution, every 8th afterwards
+    /// (long executions are dominated by repetitive bulk transfer).
+    pub fn want(&self) -> bool {
+        let mut st = self.0.borrow_mut();
+        st.asked += 1;
+        if st.force > 0 {
+            st.force -= 1;
+            return true;
+        }
+        st.asked <= 6000 || st.asked % 8 < 2
+    }
+
+    /// The next connection poll must be bracketed by fresh snapshots (quiescent-point checks).
+    pub fn force_next(&self) {
+        self.0.borrow_mut().force = 2;
     }
 
     pub fn after(&self, s: &Snapshot) {
